@@ -55,6 +55,7 @@ type modelState struct {
 	exist     map[common.InternalAddress]bool
 	code      map[common.InternalAddress][]byte
 	storage   map[common.InternalAddress]map[common.Hash]common.Hash
+	committed map[common.InternalAddress]map[common.Hash]common.Hash // storage as of the start of the transaction (nil: same as storage)
 	suicided  map[common.InternalAddress]bool
 	refund    uint64
 	logs      []*types.Log
@@ -72,6 +73,7 @@ func newModelState(db *modelDB) *modelState {
 
 func (s *modelState) clone() *modelState {
 	c := newModelState(s.db)
+	c.committed = s.committed
 	for k, v := range s.bal {
 		c.bal[k] = new(big.Int).Set(v)
 	}
@@ -146,7 +148,24 @@ func (s *modelState) SubRefund(g uint64) {
 }
 func (s *modelState) GetRefund() uint64 { return s.refund }
 func (s *modelState) GetCommittedState(a common.InternalAddress, k common.Hash) common.Hash {
-	return s.GetState(a, k)
+	if s.committed == nil {
+		return s.GetState(a, k)
+	}
+	if m := s.committed[a]; m != nil {
+		return m[k]
+	}
+	return common.Hash{}
+}
+
+// beginTx freezes the current storage as the committed storage of the transaction that starts now.
+func (s *modelState) beginTx() {
+	s.committed = map[common.InternalAddress]map[common.Hash]common.Hash{}
+	for a, m := range s.storage {
+		s.committed[a] = map[common.Hash]common.Hash{}
+		for k, v := range m {
+			s.committed[a][k] = v
+		}
+	}
 }
 func (s *modelState) GetState(a common.InternalAddress, k common.Hash) common.Hash {
 	if m := s.storage[a]; m != nil {
